@@ -441,9 +441,17 @@ def _write_inputs(case, d):
     raw = os.path.join(d, "raw")
     os.makedirs(raw, exist_ok=True)  # a session (see _check_session) rewrites the same paths call after call
     lines = []
+    npz_entries, h5_entries = {}, {}
     for i, u in enumerate(case["utts"]):
         sig = _samples(case, i)
         stem = os.path.join(raw, f"s{i}")
+        if u["fmt"] in ("npz", "h5"):
+            # keyed archives: ONE file holds several utterances, each under its own id (the tool passes key=<utterance id>),
+            # so consecutive map entries name the same path and differ only in the key
+            arr = sig if u["ch"] >= 1 else sig[0]
+            (npz_entries if u["fmt"] == "npz" else h5_entries)[u["id"]] = arr
+            lines.append(f"{u['id']} {os.path.join(raw, 'archive.npz' if u['fmt'] == 'npz' else 'archive.hdf5')}\n")
+            continue
         if u["fmt"] == "wav":
             path = stem + ".wav"
             _write_wav(path, sig, u["rate"])
@@ -456,6 +464,13 @@ def _write_inputs(case, d):
                 path = stem + ".npy"
                 np.save(path, arr)
         lines.append(f"{u['id']} {path}\n")
+    if npz_entries:
+        np.savez(os.path.join(raw, "archive.npz"), **npz_entries)
+    if h5_entries:
+        import h5py
+        with h5py.File(os.path.join(raw, "archive.hdf5"), "w") as h5:
+            for k_, v_ in h5_entries.items():
+                h5.create_dataset(k_, data=v_)
     table = os.path.join(d, "wav.scp" if case["tool"] == "kaldi" else "map")
     with open(table, "w") as f:
         f.writelines(lines)
@@ -911,6 +926,12 @@ def _utt_set(rng, tool, variant):
                 {"n": n_long(), "ch": 0},
             ]
         order = rng.permutation(len(fmts))
+        if variant == "archive":
+            # several utterances per keyed archive, listed one after the other, plus a plain file in between
+            base = [{"n": n_long(), "ch": 0}, {"n": n_long(), "ch": 0}, {"n": n_long(), "ch": 0}, {"n": n_long(), "ch": 0},
+                    {"n": n_long(), "ch": 0}, {"n": int(rng.integers(1, 40)), "ch": 0}, {"n": n_long(), "ch": 0}]
+            fmts = ["npz", "npz", "npz", "npy64", "h5", "h5", "h5"]
+            order = list(range(len(fmts)))
         for j, u in enumerate(base):
             u["fmt"] = fmts[order[j % len(fmts)]]
             u["rate"] = RATE
@@ -1079,6 +1100,8 @@ def _plan(tier, seed):
         ("stft_fbank", "none", "none", "channel"),
         ("stft_fbank", "none", "standardize", "plain"),
     ]
+    # keyed archives (.npz / .hdf5 holding several utterances, file type inferred from the suffix): early, for every seed
+    torch_core[1:1] = [("stft_fbank", "none", "none", "archive"), (None, "preemph", "deltas", "archive")]
     # shift > frame length, utterance with enough samples for half a frame but no frame: early, for every seed
     torch_core.insert(2, ("stft_causal_gabor", "none", "stack", "gap"))
     # odd frame lengths / odd shifts in the three framing modes (the torch tool runs its own port of the STFT
@@ -1149,7 +1172,7 @@ def _plan(tier, seed):
     if tier == "thorough":
         cases += [_make_session(srng, ("torch", "kaldi")[i % 2], n_random=8) for i in range(8)]
         kv = ["plain", "rate", "channel", "mindur", "mixed", "gap"]
-        tv = ["plain", "channel", "manifest", "affix", "gap"]
+        tv = ["plain", "channel", "manifest", "affix", "gap", "archive"]
         extra = []
         for comp in list(COMPUTERS) + [None]:
             for pre in PRES:
